@@ -328,7 +328,12 @@ def run_harness(ctx, h, tier=None, replay=None, n_mult=None):
     open(util_path, "w").write(util_src)
     ov[os.path.join(pkgdir, "zz_verif_util_test.go")] = util_path
     for vname, src in h.files.items():
-        ov[os.path.join(pkgdir, vname)] = os.path.join(VERIF, "harness", src)
+        key = vname if vname.startswith("/") else os.path.join(pkgdir, vname)
+        ov[key] = src if src.startswith("/") else os.path.join(VERIF, "harness", src)
+    # builders' aid: try a breaking edit without touching /repo (BUILDING.md section 5)
+    xo = os.environ.get("VERIF_EXTRA_OVERLAY")
+    if xo and os.path.exists(xo):
+        ov.update(json.load(open(xo)).get("Replace", {}))
     ovp = os.path.join(ctx.work, "overlay_%s.json" % h.name)
     json.dump({"Replace": ov}, open(ovp, "w"))
     outp = os.path.join(ctx.work, "out_%s_%s.txt" % (h.name, tier))
